@@ -886,7 +886,14 @@ pub fn main() {
                     c.label("gix-no-mapping-error(git-no-op)");
                     return;
                 }
-                c.fail(format!(
+                // Known class (second face of the deepen-relative defect): for protocol v0/v1 `Arguments::deepen_relative()`
+                // writes `deepen-relative` as an argument line of its own, which only exists in v2; upload-pack dies on it.
+                let sig = if s.protocol != 2 && matches!(s.shallow, ShallowOp::Deepen(_)) && e.contains("Broken pipe") {
+                    "v1-deepen-relative-sent-as-argument-line"
+                } else {
+                    ""
+                };
+                c.fail_sig(sig, format!(
                     "gitoxide fetch failed ({e}) where `git fetch` succeeded (ok={git_ok}, stderr {:?}); scenario: {}",
                     git_err.trim(),
                     describe(&s)
